@@ -164,18 +164,26 @@ class SkBaseTransformStacking(SkBaseTransform):
         if "method" in values:
             self.method = values["method"]
             del values["method"]
-        for k, v in values.items():
-            if not k.startswith("models_"):
-                raise ValueError(f"Parameter '{k}' must start with 'models_'.")
+            for m in self.models:
+                if isinstance(m, SkBaseTransformLearner):
+                    m.set_params(method=self.method)
+        own = {k: v for k, v in values.items() if k in self.P.Keys}
+        if own:
+            SkBaseTransform.set_params(self, **own)
         d = len("models_")
         pars = [{} for m in self.models]
         for k, v in values.items():
+            if k in own:
+                continue
+            if not k.startswith("models_"):
+                raise ValueError(f"Parameter '{k}' must start with 'models_'.")
             si = k[d:].split("__", 1)
             i = int(si[0])
-            pars[i][k[d + 1 + len(si) :]] = v
+            pars[i][si[1]] = v
         for p, m in zip(pars, self.models):
             if p:
                 m.set_params(**p)
+        return self
 
     #################
     # common methods
